@@ -23,7 +23,7 @@ RULE = (("cases = scripts s1;...;sn: (1) the full predecessor x successor matrix
         "followers are scattered after their head, unsupported statements from %d families inserted at random gaps; (3) 2..5 "
         "regression-corpus scripts concatenated in random order. Non-trivial = the script has >= 2 supported groups; distinct = "
         "distinct script text."
-        " Added after seeded defects: the same table name produced twice with ALTER/INDEX in between, the very same statement text repeated, statements the lexer rejects (known finding unless anything but that exception happens), unterminated ignored lines, stray-semicolon statements, ALTER/INDEX statements after the later of two definitions of a name, statements commented out by a block comment whose closing line continues after '*/'.") % (len(G.SUPPORTED), len(G.UNSUPPORTED) + 1))
+        " Added after seeded defects: the same table name produced twice with ALTER/INDEX in between, the very same statement text repeated, statements the lexer rejects (known finding unless anything but that exception happens), unterminated ignored lines, stray-semicolon statements, ALTER/INDEX statements after the later of two definitions of a name, statements commented out by a block comment whose closing line continues after '*/', every 3rd ALTER/INDEX history also in a dialect output mode.") % (len(G.SUPPORTED), len(G.UNSUPPORTED) + 1))
 ASSUMPTIONS = ["every statement ends with ';' at the end of a line (the property's premise)",
                "corpus scripts are used as whole units; concatenations in which two scripts define the same table are skipped",
                "GO / USE / INSERT / GRANT / DELETE lines are the documented ignored-line family (skipped in both modes)"]
@@ -131,6 +131,27 @@ def history_model_case(ctx, case):
         if errs:
             ctx.violation("alter_outcome_differs_from_sequential_model", case, {"table": [t["schema"], t["name"]], "diffs": [(w, short(o, 200), short(x, 200)) for w, o, x in errs[:3]]})
             return
+    n = ctx.obs["model_checked_histories"]
+    if n % 3 == 0:
+        # the same script in a dialect output mode: every ALTER / INDEX still reaches the table it names
+        from vf.checks.c10 import ren
+        mode = ["bigquery", "mysql", "hql", "postgres", "bigquery", "snowflake"][(n // 3) % 6]
+        rm = parse(case["script"], None, output_mode=mode)
+        ctx.evaluated()
+        ctx.obs["model_checked_histories_in_dialect_mode"] += 1
+        if rm[0] == "exc":
+            ctx.violation("exception_in_dialect_mode", dict(case, mode=mode), {"mode": mode, "exception": rm[1], "message": rm[2]})
+            return
+        ents_m = [ren(e) for e in entities(rm[1])]
+        if len(ents_m) != len(case["model"]):
+            ctx.violation("entity_count", dict(case, mode=mode), {"mode": mode, "observed": len(ents_m), "expected": len(case["model"])})
+            return
+        for ent, t in zip(ents_m, case["model"]):
+            errs = c04.compare(ent, t)
+            if errs:
+                ctx.violation("alter_outcome_differs_from_sequential_model", dict(case, mode=mode), {"mode": mode, "table": [t["schema"], t["name"]],
+                                                                                                   "diffs": [(w, short(o, 200), short(x, 200)) for w, o, x in errs[:3]]})
+                return
 
 
 def _stmt_contract(self, result, old, *a, **kw):
